@@ -222,6 +222,8 @@ def run(ctx):
                 ctx.ob(name, None, "model reports '%s' but the compiled crate does not show it: %s" % (what, str(real)[:200]))
     mask_parameter_bits(ctx, S, q, rp)
     enum_parameter_values(ctx, S, q, rp)
+    import c10
+    c10.literal_lemmas(ctx, q, S, rp)        # the widths of context-dependent literals (OpConstant, OpSpecConstant, OpSwitch)
     rp.close()
     ctx.validated = rp.count
     # header on the compiled code
@@ -394,6 +396,37 @@ def check_path(S, q, e, r, off, idx, pat, kn):
         seq = "".join((o.variant if isinstance(o, sym.Adt) else "?") + " " for o in operands.items)
         if not pat.match(seq):
             static = ("operands-do-not-match-grammar", "delivered operands [%s] do not match the grammar entry" % seq.strip())
+        # every delivered one-word operand IS the word it was decoded from, and enumerants / mask bits are declared ones
+        woffs = [ev[3] for ev in r.events if ev[0] == "dec" and ev[1] == "word" and ev[2] == "ok"][1:]
+        woffs = woffs[(1 if rtype.variant == "Some" else 0) + (1 if rid.variant == "Some" else 0):]
+        k = 0
+        differs, undeclared = [], []
+        aligned = not any(ev[0] == "dec" and ev[1] == "string" for ev in r.events)
+        for o in operands.items if aligned else []:
+            if not (isinstance(o, sym.Adt) and o.fields and z3.is_bv(o.fields[0])):
+                aligned = False
+                break
+            v = o.fields[0]
+            nw = 2 if v.size() == 64 else 1
+            if k + nw > len(woffs):
+                aligned = False
+                break
+            word = z3.Select(S.MEM, woffs[k])
+            if nw == 1:
+                differs.append(v != word)
+                if o.variant in S.maskall:
+                    undeclared.append((word & z3.BitVecVal(~S.maskall[o.variant] & 0xffffffff, 32)) != 0)
+                elif o.variant in S.enums and o.variant != "Op":
+                    D = sorted(set(x for _, x in S.enums[o.variant]["variants"]))
+                    undeclared.append(z3.Not(z3.Or(*[word == z3.BitVecVal(x, 32) for x in D])))
+            else:
+                differs.append(v != z3.Concat(z3.Select(S.MEM, woffs[k + 1]), word))
+            k += nw
+        if aligned and k == len(woffs):
+            if undeclared:
+                conds.append(("undeclared-value-accepted", "accepted although an enumerant / mask word has an undeclared value or bit", z3.Or(*undeclared)))
+            if differs:
+                conds.append(("operand-differs-from-word", "a delivered operand is not the word it was decoded from", z3.Or(*differs)))
     else:
         static = ("unclassified-result", "unexpected result %r" % (r.value,))
     if static is not None:
@@ -446,12 +479,27 @@ def replay(S, rp, e, r, off, model, role):
         return real, "panics: %s (%s)" % (real["panic"], real.get("at"))
     if role.startswith("panics"):
         return real, None
+    if role == "undeclared-value-accepted" and res != "Ok":
+        return real, None
     # for non-panic roles, report the native outcome; the caller's model already classified the deviation
     return real, "result %s, callbacks %s" % (res, [x.split(" ")[0] + (" " + x.split(" ")[1] if x.startswith("instruction") else "") for x in real.get("events", [])][-3:])
 
 
 def le(w):
     return "".join("%02x" % ((w >> (8 * i)) & 0xff) for i in range(4))
+
+
+def payloads_are_the_words_read(S, q, r, off):
+    """The k-th delivered one-word parameter carries the k-th word after `off` (as its value / bits / discriminant)."""
+    conds = []
+    for k, o in enumerate(r.value.fields[0].items):
+        if not (isinstance(o, sym.Adt) and o.fields and z3.is_bv(o.fields[0]) and o.fields[0].size() == 32):
+            return False
+        conds.append(o.fields[0] != z3.Select(S.MEM, off + 4 * k))
+    if not conds:
+        return True
+    st, m = q.check(list(r.pc) + [z3.Or(*conds)], "parameter-payload")
+    return st == "unsat"
 
 
 def enum_parameter_values(ctx, S, q, rp):
@@ -501,6 +549,7 @@ def enum_parameter_values(ctx, S, q, rp):
                 for r in oks:
                     consumed = z3.simplify(r.mem[("h", "p")].fields[0].fields[1] - off)
                     good = good and z3.is_bv_value(consumed) and consumed.as_long() == 4 * len(exp)
+                    good = good and payloads_are_the_words_read(S, q, r, off)
             ctx.ob("enum-args/%s/%s" % (kind, nms[0]), True if good else False, None if good else "delivers %s, pinned grammar lists %s" % (sorted(shapes), exp))
             if not good:
                 real = rp.ask("operand_params %s %d" % (kind, v))
@@ -581,6 +630,7 @@ def mask_parameter_bits(ctx, S, q, rp):
                 d1 = oks[0].mem[("h", "p")].fields[0]
                 consumed = z3.simplify(d1.fields[1] - off)
                 good = got == exp and z3.is_bv_value(consumed) and consumed.as_long() == 4 * len(exp)
+                good = good and payloads_are_the_words_read(S, q, oks[0], off)
             ctx.ob("mask-args/%s/%s" % (kind, nm), True if good else False, None if good else "delivers %s, pinned grammar lists %s" % (
                 [o.variant for o in oks[0].value.fields[0].items] if oks else "no Ok path", exp))
             if not good:
